@@ -489,3 +489,82 @@ func (g *Graph) guardingConds(v int) []int {
 	sort.Slice(out, func(i, j int) bool { return g.Dominates(out[i], out[j]) && out[i] != out[j] })
 	return out
 }
+
+// failureEdges returns the first vertices of the branch edges taken when the error bound by `call`
+// (`…, err := call(…)`) is non-nil, the error variable not having been reassigned in between. Empty when the
+// error is never tested.
+func (f *Func) failureEdges(call *ast.CallExpr) []int {
+	as, ok := f.ParentOf(call).(*ast.AssignStmt)
+	if !ok || len(as.Rhs) != 1 {
+		return nil
+	}
+	errObj := f.ObjOf(as.Lhs[len(as.Lhs)-1])
+	if errObj == nil {
+		return nil
+	}
+	g := f.Graph()
+	cv := g.VertexOf(call)
+	var out []int
+	for _, ev := range g.condVertices() {
+		cond := g.node[ev-1].(ast.Expr)
+		if !g.Dominates(cv, ev-1) || g.writtenBetween(errObj, cv, ev-1) {
+			continue
+		}
+		for k := 0; k < 2; k++ {
+			var atoms, other []Atom
+			splitAtoms(cond, k == 0, &atoms)
+			splitAtoms(cond, k != 0, &other)
+			says := hasAtom(atoms, func(a Atom) bool {
+				return AtomSaysNil(a, false, func(e ast.Expr) bool { return f.ObjOf(e) == errObj })
+			}) || hasAtom(other, func(a Atom) bool {
+				return AtomSaysNil(a, true, func(e ast.Expr) bool { return f.ObjOf(e) == errObj })
+			})
+			if says {
+				out = append(out, g.succ[ev][k])
+			}
+		}
+	}
+	return out
+}
+
+// boundErrorIsReturned: the error bound by `…, err = call(…)` is what every return reachable from the call hands back
+// (`_, err = w.Write(data); return err`), without err being reassigned on the way.
+func (f *Func) boundErrorIsReturned(call *ast.CallExpr) bool {
+	as, ok := f.ParentOf(call).(*ast.AssignStmt)
+	if !ok || len(as.Rhs) != 1 {
+		return false
+	}
+	errObj := f.ObjOf(as.Lhs[len(as.Lhs)-1])
+	if errObj == nil {
+		return false
+	}
+	g := f.Graph()
+	cv := g.VertexOf(call)
+	seen, _ := g.reach([]int{cv}, nil, nil)
+	n := 0
+	for _, x := range g.Exits {
+		if !seen[x] {
+			continue
+		}
+		n++
+		r, isR := g.node[x].(*ast.ReturnStmt)
+		if !isR {
+			return false
+		}
+		if len(r.Results) == 0 {
+			nr := 0
+			if f.Type.Results != nil {
+				nr = f.Type.Results.NumFields()
+			}
+			if nr == 0 || f.NamedResult(nr-1) != errObj {
+				return false
+			}
+		} else if f.ObjOf(r.Results[len(r.Results)-1]) != errObj {
+			return false
+		}
+		if g.writtenBetween(errObj, cv, x) {
+			return false
+		}
+	}
+	return n > 0
+}
